@@ -609,6 +609,83 @@ def r4_value_typing(ctx, sym):
                   "get_pedal_type_from_value(%s())" % k, construct='ELEMENT_TYPES')
 
 
+
+def r4e_value_typing_executed(ctx, sym):
+    ctx.rule('R4e', "get_pedal_type_from_value executed abstractly on scalar representatives, in both orders within "
+                    "one process (module-level state such as a cache is shared between the calls, as at run time): "
+                    "the class of the result is the literal/plain pedal type of the value's own Python type. 1, 1.0 "
+                    "and True are equal and hash alike, so any value-keyed memo confuses them")
+    from ..fdeval import FD, Obj, Inconclusive, Raised, module_resolver
+    mod = ctx.repo.module(NORM)
+    fn = mod.func('get_pedal_type_from_value')
+    # helper functions of the module, interpreted inline; pedal classes and other pedal functions stay symbolic
+    functions = {}
+    calls = {}
+    standins = {}
+    for st in mod.tree.body:
+        if isinstance(st, ast.FunctionDef):
+            functions[st.name] = st
+    used = {n.id for f in functions.values() for n in ast.walk(f) if isinstance(n, ast.Name)}
+    for name in sorted(used):
+        if name in functions:
+            continue
+        r = sym.resolve_name(mod, name)
+        if isinstance(r, ClassInfo):
+            standins[name] = (lambda nm: (lambda *a, **k: Obj(nm, args=a, __cls__=nm)))(r.name)
+        elif isinstance(r, tuple) and r and r[0] == 'func':
+            standins[name] = (lambda nm: (lambda *a, **k: Obj('result-of-' + nm, args=a, __cls__=None)))(name)
+        else:
+            continue
+        standins[name]._fd_callable = True
+    def _isinstance(v, t):
+        ts = t if isinstance(t, tuple) else (t,)
+        if isinstance(v, Obj) or not all(isinstance(x, type) for x in ts):
+            raise Inconclusive('isinstance(%r, %r) on a symbolic operand' % (v, t))
+        return isinstance(v, ts)
+    calls['isinstance'] = _isinstance
+    calls['type'] = lambda v: type(v)
+    want = {bool: 'BoolType', int: 'IntType', float: 'FloatType', str: 'StrType', type(None): 'NoneType',
+            complex: 'NumType', tuple: 'TupleType'}
+    reps = [True, 1, 1.0, 0, 0.0, False, -1, -1.0, 'a', '', None, 1j, (1, 1.0), (1.0, 1), (True, 1), 2, 2.0]
+    n = 0
+    for order_name, seq in (('forward', reps), ('backward', list(reversed(reps)))):
+        fd = FD(calls=calls, functions=functions, max_steps=200000,
+                resolver=module_resolver(sym, mod, extra=standins))
+        for v in seq:
+            try:
+                got = fd.call_function(fn, [v, None])
+            except Raised as e:
+                got = Obj('raised ' + e.kind, __cls__=None)
+            except Inconclusive as e:
+                raise AnalysisError("C19 R4e: get_pedal_type_from_value(%r) is outside the decidable fragment: %s" % (
+                    v, e))
+
+            def conforms(t, val):
+                cls = t.attrs.get('__cls__') if isinstance(t, Obj) else None
+                ci = sym.find_class(TYPES, cls) if cls else None
+                if ci is None:
+                    return False
+                if not (want[type(val)] in [k.name for k in sym.mro(ci)] or _parent_chain_has(sym, ci, want[type(val)])):
+                    return False
+                if isinstance(val, tuple):
+                    elems = t.attrs['args'][0] if t.attrs.get('args') else ()
+                    try:
+                        elems = list(elems)
+                    except TypeError:
+                        return False
+                    return len(elems) == len(val) and all(conforms(a, b) for a, b in zip(elems, val))
+                # a literal type must carry the value itself (LiteralInt(1) for 1, not for True)
+                a = t.attrs.get('args') or ()
+                return not a or (type(a[0]) is type(val) and a[0] == val)
+            n += 1
+            ctx.check(conforms(got, v), 'R4e', 'get_pedal_type_from_value(%r):%s' % (v, order_name),
+                      mod, fn, "get_pedal_type_from_value(%r), called after %s in the same process, yields %s%s; "
+                      "expected a %s" % (v, 'the earlier representatives', got,
+                                         getattr(got, 'attrs', {}).get('args', ''), want[type(v)]),
+                      "type 1 and then 1.0 (or True) in one process", construct='get_pedal_type_from_value')
+    ctx.floor('R4e', 'value-typing evaluations', n, 30)
+
+
 def _parent_chain_has(sym, ci, name, depth=0):
     if depth > 5:
         return False
@@ -673,6 +750,7 @@ def run(ctx):
     r2_dispatch(ctx, sym, table)
     r3_comparisons(ctx, sym)
     r4_value_typing(ctx, sym)
+    r4e_value_typing_executed(ctx, sym)
     r5_reflexive(ctx, sym)
     ctx.assume("representative values per core type are a frozen list (REPS); CPython's operator module is the "
                "oracle and runs builtins only, never pedal")
